@@ -222,6 +222,7 @@ def run_case(case):
     nsteps = 3 + seed % 5
     layouts = ["plain", "slice", "noncontig", "requires_grad"]
     total_writes = 0
+    held = []
     for step in range(nsteps):
         op = opnames[int(torch.randint(len(opnames), (1,), generator=g))]
         lay = layouts[int(torch.randint(len(layouts), (1,), generator=g))]
@@ -266,8 +267,11 @@ def run_case(case):
         flags_before = {n_: m_.training for n_, m_ in model.named_modules()}
         watch = ww.WriteWatch(prot, allow=allow)
         torch.manual_seed(seed + step)
+        # a third of the calls run with autograd switched off (the usual way of evaluating): buffers that an implementation
+        # recycles only "when nobody can need the graph" are recycled here
+        nograd = (step + seed) % 3 == 0
         try:
-            with watch:
+            with watch, torch.set_grad_enabled(not nograd):
                 out = call(model, xv, cv)
         except Exception as e:
             r.count("calls_raised")
@@ -280,6 +284,18 @@ def run_case(case):
             continue
         r.ev()
         r.count("calls_watched")
+        if nograd:
+            r.count("calls_watched_under_no_grad")
+        # tensors handed out by EARLIER calls belong to the caller: a later call must not have written to them
+        for (hop, hstep, ht, hclone) in held:
+            r.count("earlier_result_checks")
+            if ht.shape != hclone.shape or not ww.same_bits(ht.detach(), hclone):
+                r.viol("earlier_result_overwritten", "%s.%s overwrites a tensor returned by an earlier call on the same object" % (label, op),
+                       earlier_op=hop, earlier_step=hstep, subject=label, op=op, mode=mode, step=step, no_grad=nograd, cfg=cfg)
+        held[:] = [h for h in held if ww.same_bits(h[2].detach(), h[3])]
+        for o_ in out:
+            if isinstance(o_, torch.Tensor) and o_.numel():
+                held.append((op, step, o_, o_.detach().clone()))
         r.count("aten_ops_seen", watch.ops)
         r.count("inplace_writes_seen", watch.write_ops)
         total_writes += watch.write_ops
@@ -338,6 +354,29 @@ def run_case(case):
                 r.count("fresh_copy_call_raised")
         if watch.ops > 0:
             r.cell(label, op, mode, lay)
+        # the very tensor a forward call returned is handed back as the argument of inverse (a round trip as a user writes it)
+        if kind == "transform" and op == "forward" and mode == "eval" and isinstance(out[0], torch.Tensor) and out[0].numel():
+            y_arg = out[0]
+            prot2 = {"inputs.arg": y_arg}
+            prot2.update(model_tensors(model))
+            snap2 = ww.snapshot(prot2)
+            watch2 = ww.WriteWatch(prot2, allow=set())
+            try:
+                with watch2, torch.set_grad_enabled(not nograd):
+                    out2 = model.inverse(y_arg, cv)
+            except Exception:
+                r.count("chained_inverse_raised")
+            else:
+                r.ev()
+                r.count("chained_inverse_calls")
+                ev2 = [e for e in watch2.events if any(n.startswith("inputs.") for n in e["protected"])]
+                ch2 = [n for n in ww.changed(snap2, prot2) if n.startswith("inputs.")]
+                if ev2 or ch2:
+                    r.viol("argument_mutated", "%s.inverse modifies a tensor passed in by the caller" % label, changed=ch2,
+                           write_events=ev2[:2], chained=True, no_grad=nograd, subject=label, op="inverse", mode=mode, step=step, cfg=cfg)
+                for o_ in out2:
+                    if isinstance(o_, torch.Tensor) and o_.numel():
+                        held.append(("inverse(chained)", step, o_, o_.detach().clone()))
     if mode == "eval":
         try:
             reuse_and_update_phase(r, model, model0, kind, cfg, label, opnames, mk_inputs, me if kind == "transform" else None, seed,
